@@ -128,6 +128,8 @@ class SimMixin(object):
         sim = SimTransport.sim
         sim.in_send += 1
         sim.skip = 2
+        sim.delta_reads = 0
+        sim.call_jumped = False
         try:
             S.SyncObj._SyncObj__sendAppendEntries(self)
         finally:
@@ -161,14 +163,19 @@ class Sim(object):
     def __init__(self, cfg, workdir=None):
         self.cfg = dict(cfg)
         self.workdir = workdir
+        if workdir is not None:
+            import shutil
+            shutil.rmtree(workdir, ignore_errors=True)     # never start from files of an earlier run
+            os.makedirs(workdir, exist_ok=True)
         self.now = 0.0
         self.rnd = 0.0
         self.t_jump = None
-        self.budget = 200
+        self.budget = 30
         self.in_send = 0
         self.skip = 0
         self.delta_reads = 0
-        self.jumped = False
+        self.jumped = 0
+        self.call_jumped = False
         self.rand_reads = 0
         self.nodes = {}
         self.chan = {}
@@ -199,9 +206,10 @@ class Sim(object):
                 self.skip -= 1
             else:
                 self.delta_reads += 1
-                if self.delta_reads > self.budget and not self.jumped:
-                    self.jumped = True
-                    self.now = self.t_jump
+                if self.delta_reads > self.budget and not self.call_jumped:
+                    self.call_jumped = True
+                    self.jumped += 1
+                    self.now = self.now + self.cfg['period'] + 1.0
         return self.now
 
     def conf_for(self, nid):
@@ -278,14 +286,15 @@ class Sim(object):
         self.sent, self.fired, self.roles = [], [], []
         self.exc = 0
         self.delta_reads = 0
-        self.jumped = False
+        self.jumped = 0
+        self.call_jumped = False
         self.rand_reads = 0
         if now is not None:
             self.now = float(now)
             self.t_jump = float(now) + self.cfg['period'] + 1.0
         if rnd is not None:
             self.rnd = rnd / float(self.cfg['tspan'])
-        self.budget = 200 if budget is None else budget
+        self.budget = 30 if budget is None else budget
         for o in self.nodes.values():
             o._SyncObj__transport.tlog = []
 
@@ -479,7 +488,7 @@ class Sim(object):
         inc = sg('incomingTransmissionFile')
         out += [0 if inc is None else 1 + (len(inc) if isinstance(inc, bytes) else inc.tell())]
         out += L(list(o.history))
-        out += [g('enabledCodeVersion'), 1 if g('needLoadDumpFile') else 0]
+        out += [g('enabledCodeVersion'), 1 if g('needLoadDumpFile') else 0, g('journalReplayIdx')]
         return out
 
     def outs(self):
@@ -493,7 +502,7 @@ class Sim(object):
         out += L([[o, n] for _, o, n in self.roles])
         tl = self.tr(self.step_nid).tlog if (self.step_nid in self.nodes) else []
         out += L([list(x) for x in tl])
-        out += [self.exc, 1 if self.jumped else 0]
+        out += [self.exc, self.jumped]
         return out
 
     def observe(self):
